@@ -31,7 +31,7 @@ ASSUMPTIONS = [
 PROBES = ["dirruns", "inputs_ge_3", "cross_file_var_ref", "stale_output_present", "repeat_run_checked", "enum_runs",
           "fault:non-utf8", "fault:empty", "fault:dir-named-css", "fault:dangling-link", "fault:unserialisable",
           "fault:eacces", "fault:eio", "fault:late-unserialisable", "fault:out-is-dir", "fault:eacces-out",
-          "fault_first", "fault_middle", "fault_last", "cm_named_input_present", "late_fault_defines_props_others_reference", "symlinked_stylesheet_input", "duplicate_content_files", "same_translucent_text_in_several_files", "bom_files", "dirruns_in_one_process", "dirruns_stderr_none", "dirruns_in_thread", "dirruns_fd_headroom",
+          "fault_first", "fault_middle", "fault_last", "cm_named_input_present", "late_fault_defines_props_others_reference", "symlinked_stylesheet_input", "duplicate_content_files", "same_translucent_text_in_several_files", "bom_files", "dirruns_in_one_process", "outputs_reencoded_between_runs", "dirruns_stderr_none", "dirruns_in_thread", "dirruns_fd_headroom",
           "outputs_compared"]
 
 FAULT_KINDS = ("non-utf8", "empty", "dir-named-css", "dangling-link", "unserialisable", "eacces", "eio",
@@ -260,6 +260,8 @@ def generate(rseed, tier, idx):
         steps.append({"op": "dirrun", "target": ".", "settings": base_settings, "order_key": o.randrange(1 << 30), "faults": []})
     # often finish with a repeat of the last directory run (idempotence) after faults stopped
     if g.random() < 0.6:
+        if g.random() < 0.3:
+            steps.append({"op": "mangle", "how": g.choice(("crlf", "bom", "cr"))})
         last = [s for s in steps if s["op"] == "dirrun"][-1]
         steps.append({"op": "dirrun", "target": last["target"], "settings": last["settings"],
                       "order_key": o.randrange(1 << 30), "faults": []})
@@ -382,6 +384,27 @@ def execute(trace):
                 events.append(("clean",))
                 prev_run = None
                 continue
+            if op == "mangle":
+                # something else re-encoded the results of earlier runs without changing their text: a checkout that converts
+                # line endings, an editor that adds a byte-order mark. The next run must again leave the bytes of a solo run.
+                snap = seams.snapshot(tdir)
+                n_m = 0
+                for rel in sorted(snap):
+                    if rel in produced and rel.endswith("_cm.css") and snap[rel][0] == "f":
+                        try:
+                            txt = snap[rel][1].decode("utf-8")
+                        except UnicodeDecodeError:
+                            continue
+                        new = {"crlf": txt.replace("\r\n", "\n").replace("\n", "\r\n"), "cr": txt.replace("\r\n", "\n").replace("\n", "\r"),
+                               "bom": "\ufeff" + txt.lstrip("\ufeff")}[st["how"]]
+                        if new != txt:
+                            with open(os.path.join(tdir, rel), "wb") as fh:
+                                fh.write(new.encode("utf-8"))
+                            n_m += 1
+                bump("outputs_reencoded_between_runs", n_m)
+                events.append(("mangle", st["how"], n_m))
+                prev_run = None
+                continue
             if op == "filerun":
                 if not os.path.lexists(os.path.join(tdir, st["file"])):
                     events.append(("filerun-skipped", st["file"]))
@@ -497,11 +520,29 @@ def execute(trace):
                     if exp["errors"] and not env.get("stderr_none"):  # (with stderr closed there is nowhere to report to)
                         if ("<SBX>/tree/" + rel) not in errs:
                             V("bad-file-not-reported", si, file=rel, stderr_paths=sorted(errs))
+            # "files ending in _cm.css are never taken as inputs": taken as an input = counted among the processed files,
+            # reported as failing, or given an output of its own. (Merely READING an existing output - to skip an identical
+            # rewrite, say - is not; it is counted as a probe only. Benign variant b13.)
             for p in sorted(opened):
-                if p.endswith("_cm.css"):
-                    V("output-consumed", si, path=p)
-                elif p.startswith("tree/") and p[5:] in produced:
-                    V("output-consumed", si, path=p, note="a file written by an earlier run was read as an input")
+                if p.endswith("_cm.css") or (p.startswith("tree/") and p[5:] in produced):
+                    bump("existing_output_read")
+            n_announced = cli_run.parse_stdout(res["out"]).get("processing")
+            # the most generous count of "stylesheets under the target": any letter case of the suffix, minus outputs
+            pre_t = "" if target in (".", "") else target.rstrip("/") + "/"
+            n_model = len([r for r in before if r.startswith(pre_t) and r.lower().endswith(".css")
+                           and not r.lower().endswith("_cm.css") and r not in produced])
+            if isinstance(n_announced, int) and n_announced > n_model:
+                V("output-consumed", si, announced=n_announced, stylesheets=n_model,
+                  note="more files processed than there are stylesheets under the target: an output was taken as an input")
+            for ep in sorted(errs):
+                relp = ep[len("<SBX>/tree/"):] if ep.startswith("<SBX>/tree/") else None
+                if relp and (relp.endswith("_cm.css") or relp in produced) and relp not in inputs:
+                    V("output-consumed", si, path=relp, note="an output file was processed (and reported as failing)")
+            for rel in sorted(before):
+                if (rel.endswith("_cm.css") or rel in produced) and rel not in inputs and rel.endswith(".css"):
+                    o2 = _out_of(rel)
+                    if after.get(o2) != before.get(o2):
+                        V("output-consumed", si, path=rel, output=o2, note="an output of an output appeared or changed")
             produced |= {k for k in after if k not in before and not k.endswith("cm_colors_report.html")}
             for rel in after:
                 if rel.endswith("_cm_cm.css") and rel not in before:
